@@ -80,6 +80,12 @@ class _Emit(Client):
                 return (state,), ()
         if isinstance(test, ast.Compare) and len(test.ops) == 1:
             op, a, b = test.ops[0], test.left, test.comparators[0]
+            # item = storage.get(cursor, SENTINEL);  `item is not SENTINEL`  is  `cursor in storage`
+            if isinstance(op, (ast.Is, ast.IsNot)) and isinstance(a, ast.Name):
+                gd = self._get_with_default(a, ctx)
+                if gd is not None and src(gd[1]) == src(b) and self._is_cursor(gd[0], ctx) and not (isinstance(b, ast.Constant) and b.value is None):
+                    present, absent = (pd, pa, True, isnext, stored), (pd, pa, False, isnext, stored)
+                    return ((present,), (absent,)) if isinstance(op, ast.IsNot) else ((absent,), (present,))
             if isinstance(op, ast.In) and self._is_cursor(a, ctx) and self._is_storage(b, ctx):
                 return ((pd, pa, True, isnext, stored),), ((pd, pa, False, isnext, stored),)
             if isinstance(op, ast.NotIn) and self._is_cursor(a, ctx) and self._is_storage(b, ctx):
@@ -92,6 +98,27 @@ class _Emit(Client):
                     return ((t,), (f,)) if isinstance(op, ast.Eq) else ((f,), (t,))
         return (state,), (state,)
 
+    def _get_with_default(self, name: ast.Name, ctx):
+        """(key expr, default expr) when every definition of the local is `storage.get(key, default)` with one key / default"""
+        fl = getattr(ctx.func.node, "_flow", None)
+        if fl is None:
+            from ..flow import Flow
+            fl = ctx.func.node._flow = Flow(ctx.func.node)
+        defs = list(fl.defs_of(name))
+        if not defs:
+            return None
+        out = set()
+        for d_ in defs:
+            v = d_.value
+            if not (isinstance(v, ast.Call) and isinstance(v.func, ast.Attribute) and v.func.attr == "get" and self._is_storage(v.func.value, ctx)
+                    and len(v.args) == 2 and not v.keywords):
+                return None
+            out.add((src(v.args[0]), src(v.args[1])))
+        if len(out) != 1:
+            return None
+        v = defs[0].value
+        return v.args[0], v.args[1]
+
     def _stored_item(self, name: ast.Name, ctx):
         """the subscript `storage[k]` a local stands for, or None"""
         fl = getattr(ctx.func.node, "_flow", None)
@@ -101,13 +128,21 @@ class _Emit(Client):
         ex_ = fl.expand(name)
         if isinstance(ex_, ast.Subscript) and self._is_storage(ex_.value, ctx):
             return ex_
+        gd = self._get_with_default(name, ctx)
+        if gd is not None:
+            # item = storage.get(k, <sentinel>), used under `item is not <sentinel>`: the stored item under k
+            sub = ast.Subscript(value=ast.Attribute(value=ast.Name(id=ctx.func.self_name, ctx=ast.Load()), attr=self.bf.storage, ctx=ast.Load()),
+                                slice=gd[0], ctx=ast.Load())
+            return ast.copy_location(sub, name)
         # for k, v in [sorted(] storage.items() [, ...)]:  v is storage[k]
         for lp in ast.walk(ctx.func.node):
             if isinstance(lp, ast.For) and isinstance(lp.target, ast.Tuple) and len(lp.target.elts) == 2 \
                     and all(isinstance(x, ast.Name) for x in lp.target.elts) and lp.target.elts[1].id == name.id:
-                it_ = lp.iter
+                it_ = fl.expand(lp.iter) if isinstance(lp.iter, ast.Name) else lp.iter      # a named, sorted snapshot
                 while isinstance(it_, ast.Call) and src(it_.func) in ("sorted", "list", "tuple") and it_.args:
                     it_ = it_.args[0]
+                    if isinstance(it_, ast.Name):
+                        it_ = fl.expand(it_)
                 if isinstance(it_, ast.Call) and isinstance(it_.func, ast.Attribute) and it_.func.attr == "items" \
                         and self._is_storage(it_.func.value, ctx) and any(x is name for x in ast.walk(lp)):
                     sub = ast.Subscript(value=it_.func.value, slice=ast.Name(id=lp.target.elts[0].id, ctx=ast.Load()), ctx=ast.Load())
@@ -683,6 +718,10 @@ def r5_ring_slots(prog, rep: Report):
         if dotted(t) == (p.self_name, W):
             adv = val if val is not None else st
     ok = False
+    if adv is not None and isinstance(adv, ast.expr):
+        from ..util import expand_all as _ea
+        from ..flow import Flow as _Fl
+        adv = _ea(adv, _Fl(p.node))                  # `position = self._w + 1; self._w = position % cap` (an inlined wrap helper)
     if isinstance(adv, ast.BinOp) and isinstance(adv.op, ast.Mod) and is_cap(adv.right, p):
         lin = _linear(adv.left, mk_sym(p))
         ok = lin is not None and _norm_lin(lin) == {"W": 1, "1": 1}
